@@ -49,7 +49,7 @@ ASSUMPTIONS = [
 
 CLASSES = ["oob_center_faces", "oob_whole_odd", "oob_whole_even", "oob_upper_only", "oob_multi_tomo", "oob_far", "oob_single", "oob_shared_dims", "oob_block_sizes",
            "trim_faces", "trim_random", "trim_start_one", "trim_block_sizes", "dist_near", "dist_cross_tomo", "dist_shifted", "dist_exact_tie", "dist_block_sizes",
-           "mask_inside", "mask_outside", "mask_files_multi", "mask_single_partial", "mask_block_sizes"]
+           "mask_inside", "mask_outside", "mask_files_multi", "mask_single_partial", "mask_block_sizes", "flow_chain"]
 KEY = "oob-lower-face"
 TIE = 1e-6
 T30, T22 = 2.0 ** -30, 2.0 ** -22        # 9.3e-10 and 2.4e-7: dyadic, so every x/shift/offset sum stays exact
@@ -60,13 +60,13 @@ ID_BASES = {"1e5": 100000, "1e6": 1000000, "date": 2309150, "2p24": 2 ** 24 - 4,
 
 def plan(tier):
     if tier == "quick":
-        return dict(n_cases=920, shards=4, classes=CLASSES, timeout_s=900,
+        return dict(n_cases=960, shards=4, classes=CLASSES, timeout_s=900,
                     min_evals={"oob_upper_survivors": 1000, "oob_lower": 1000, "trim_exact": 450, "trim_start_111": 70, "dist_exact": 430,
                                "mask_exact": 600, "oob_repr_invariance": 250, "trim_compose": 110, "dist_union_monotone": 55,
                                "mask_complement": 110, "dist_exact_ties_removed": 45, "dims_unchanged": 270, "dist_file": 90,
                                "mask_file": 130, "dist_last_rows_decide": 40},
                     min_known={"oob-lower-face": 50})
-    return dict(n_cases=9660, shards=16, classes=CLASSES, timeout_s=3000,
+    return dict(n_cases=9600, shards=16, classes=CLASSES, timeout_s=3000,
                 min_evals={"oob_upper_survivors": 10000, "oob_lower": 10000, "trim_exact": 4500, "trim_start_111": 700, "dist_exact": 4300,
                            "mask_exact": 6000, "oob_repr_invariance": 2500, "trim_compose": 1100, "dist_union_monotone": 550,
                            "mask_complement": 1100, "dist_exact_ties_removed": 450, "dims_unchanged": 2700, "dist_file": 900,
@@ -478,6 +478,126 @@ def head(arr, k=3):
     return np.round(O.positions(arr[:k]), 3).tolist()
 
 
+# ---- shapes of the inputs (round 6): index labels, column order, dtypes, layouts, scalar kinds, paths ----------------
+def odd_labels(rng, n, kinds=("range", "permuted", "gapped", "reversed", "repeated", "repeated", "all_same")):
+    """row labels of a table of n rows; 'repeated' is what pd.concat([a.df, b.df]) without ignore_index leaves behind"""
+    kind = str(rng.choice(kinds))
+    if kind == "range" or n == 0:
+        return "range", np.arange(n)
+    if kind == "permuted":
+        return kind, rng.permutation(n)
+    if kind == "gapped":
+        return kind, np.sort(rng.choice(np.arange(3 * n + 5), n, replace=False))
+    if kind == "reversed":
+        return kind, np.arange(n)[::-1].copy()
+    if kind == "all_same":
+        return kind, np.zeros(n, dtype=int)
+    if rng.random() < 0.6 and n >= 2:                    # two lists concatenated
+        m = int(rng.integers(1, n))
+        return kind, np.concatenate([np.arange(m), np.arange(n - m)])
+    return kind, rng.integers(0, max(1, n // 2), n)
+
+
+def shape_table(rng, case):
+    """Changes that leave every particle (and so every expected set) as it is: row labels, column order, integer-typed
+    x,y,z with the fraction moved into the shift, constant columns, DataFrame.attrs."""
+    df = case["df"]
+    n = len(df)
+    notes = {}
+    if rng.random() < 0.25:
+        for c in rng.choice(["score", "class", "geom1", "object_id"], 2, replace=False):
+            df[c] = 0.0
+        notes["constant_zero_columns"] = True
+    if rng.random() < 0.08:
+        arr = O.table(df)
+        if case["kind"] != "trim" and not case.get("ulp"):
+            c = O.positions(arr)
+            set_positions(df, c, np.zeros_like(c))
+            notes["all_shifts_zero"] = True
+    if rng.random() < 0.3 and not case.get("ulp"):
+        xyz = df[["x", "y", "z"]].to_numpy(dtype=float)
+        if case["kind"] == "trim":
+            ok = bool(np.all(case["start"] == np.round(case["start"])) and np.all(xyz == np.round(xyz)))
+        else:
+            fl = np.floor(xyz)
+            for a, (cx, cs) in enumerate(zip(("x", "y", "z"), ("shift_x", "shift_y", "shift_z"))):
+                df[cs] = df[cs].to_numpy(dtype=float) + (xyz[:, a] - fl[:, a])
+            xyz, ok = fl, True
+        if ok and np.abs(xyz).max(initial=0) < 2 ** 31 - 1:
+            dt = np.int64 if rng.random() < 0.5 else np.int32
+            if case["kind"] in ("trim", "flow"):
+                dt = np.int64             # adapt_to_trimming raises on int32 columns under pandas 3 (reported; not generated)
+            for a, cx in enumerate(("x", "y", "z")):
+                df[cx] = xyz[:, a].astype(dt)
+            notes["integer_xyz"] = np.dtype(dt).name
+    if rng.random() < 0.25:
+        df = df[[O.COLS[j] for j in rng.permutation(20)]].copy()
+        notes["columns_permuted"] = True
+    kind, labels = odd_labels(rng, n)
+    df.index = labels
+    notes["row_labels"] = kind
+    df.attrs["origin"] = "c09 case %d" % case["i"]
+    case["df"] = df
+    case["summary"]["table_shape"] = notes
+
+
+def layout(a, v):
+    """the same values in another memory layout / with other flags"""
+    a = np.asarray(a)
+    v = v % 6
+    if v == 1:
+        return np.asfortranarray(a)
+    if v == 2:                                            # negative strides along the first axis
+        return np.ascontiguousarray(a[::-1])[::-1]
+    if v == 3:                                            # non-contiguous: every second element of a wider buffer
+        big = np.zeros(a.shape[:-1] + (2 * a.shape[-1],), dtype=a.dtype)
+        big[..., ::2] = a
+        return big[..., ::2]
+    if v == 4:
+        b = a.copy()
+        b.setflags(write=False)
+        return b
+    if v == 5 and a.ndim >= 2:                            # axes swapped in memory, un-swapped as a view
+        return np.ascontiguousarray(np.swapaxes(a, -1, -2)).swapaxes(-1, -2)
+    return a
+
+
+def as_flag(i, b):
+    return [bool, np.bool_, int, bool][(i // 3) % 4](b)
+
+
+def as_num(i, v):
+    """the same number as another scalar kind (python, numpy scalar, float32 when exact, 0-d array)"""
+    if v is None:
+        return None
+    k = (i // 2) % 6
+    f = float(v)
+    if k == 1:
+        return np.float64(f)
+    if k == 2 and f == round(f):
+        return np.int64(round(f))
+    if k == 3 and float(np.float32(f)) == f:
+        return np.float32(f)
+    if k == 4:
+        return np.array(f)
+    if k == 5 and f == round(f):
+        return int(round(f))
+    return v
+
+
+ODD_NAMES = ["plain_%d", "ribosome_%d", "sub dir/frame%d", "m[%d]*q?", "mäsk_%d_ü", "them.%d"]
+
+
+def odd_path(ctx, i, stem, ext, relative=None):
+    """paths with blanks, glob characters, non-ASCII letters, sub-directories, stems ending like an extension; relative
+    (the shard's cwd is its scratch directory) or absolute"""
+    name = ODD_NAMES[i % len(ODD_NAMES)] % (i % 4) + stem + ext
+    full = os.path.join(ctx.scratch, name)
+    os.makedirs(os.path.dirname(full), exist_ok=True)
+    rel = (i // len(ODD_NAMES)) % 2 == 0 if relative is None else relative
+    return name if rel and os.path.realpath(os.getcwd()) == os.path.realpath(ctx.scratch) else full
+
+
 # ---- generator: out of bounds -----------------------------------------------------------------------
 def gen_oob(ctx, rng, cls, i):
     k = 1 if cls == "oob_single" else int(rng.integers(2, 5)) if cls == "oob_multi_tomo" else int(rng.integers(1, 5))
@@ -597,19 +717,26 @@ def dims_object(ctx, case, which, tag):
     p = case["perm"][which]
     a = np.column_stack([ids[p], dims[p]])
     r = case["reprs"][which]
+    v = case["i"] // len(CLASSES) + which
     if r == "array_f":
-        return a.astype(np.float64)
+        # float32 dimension arrays are not generated: /repo compares python floats with np.float32 in float32 precision
+        # (positions within ~1e-6 below an upper face are removed) - reported to the lead, waiting for a ruling
+        return layout(a.astype(np.float64), v)
     if r == "array_i":
-        return a.astype(np.int64)
-    if r == "df_named":
-        return pd.DataFrame(a, columns=["tomo_id", "x", "y", "z"])
-    if r == "df_unnamed":
-        return pd.DataFrame(a)
+        small = np.abs(a).max() < 2 ** 15
+        dt = np.int16 if (small and v % 3 == 0) else np.int32 if (np.abs(a).max() < 2 ** 31 and v % 3 == 1) else np.int64
+        return layout(a.astype(dt), v + 1)
+    if r in ("df_named", "df_unnamed"):
+        f = pd.DataFrame(a, columns=["tomo_id", "x", "y", "z"]) if r == "df_named" else pd.DataFrame(a)
+        if v % 2:
+            f = f.astype({f.columns[1]: np.int32, f.columns[3]: np.int64})
+        f.index = odd_labels(np.random.default_rng([case["i"], which, 11]), len(f))[1]
+        return f
     if r == "list4":
         return [float(v) for v in a[0]]
     if r == "array1d":
         return a[0].copy()
-    path = os.path.join(ctx.scratch, "dims_%s_%d.txt" % (tag, which))
+    path = odd_path(ctx, case["i"] + which, "dims_%s_%d" % (tag, which), ".txt")
     odd = ["%d", "%d.", "+%d", "%.1f", "%.2e", "%.3E", "%08.3f"]       # 85  85.  +85  85.0  8.50e+01  8.500E+01  0085.000
     with open(path, "w") as f:
         for j, row in enumerate(a):
@@ -655,6 +782,7 @@ def run_oob_reuse(ctx, case):
     else:
         a = np.column_stack([case["ids"][case["perm"][0]], case["dims"][case["perm"][0]]])
         D = pd.DataFrame(a, columns=["tomo_id", "x", "y", "z"]) if (case["i"] // len(CLASSES)) % 4 == 0 else pd.DataFrame(a)
+        D.index = odd_labels(np.random.default_rng([case["i"], 12]), len(D))[1]
         register_dims(D)
     pristine = _PRISTINE[id(D)][3]
     try:
@@ -727,9 +855,11 @@ def run_oob(ctx, case):
             ok, _ = ctx.call("remove_out_of_bounds_particles", m.remove_out_of_bounds_particles, d)
         elif case["kw"]:
             ok, _ = ctx.call("remove_out_of_bounds_particles", m.remove_out_of_bounds_particles, dimensions=d,
-                             boundary_type=case["mode"], box_size=case["box"])
+                             boundary_type=np.str_(case["mode"]) if case["i"] % 5 == 0 else case["mode"],
+                             box_size=as_num(case["i"] + which, case["box"]))
         else:
-            ok, _ = ctx.call("remove_out_of_bounds_particles", m.remove_out_of_bounds_particles, d, case["mode"], case["box"])
+            ok, _ = ctx.call("remove_out_of_bounds_particles", m.remove_out_of_bounds_particles, d, case["mode"],
+                             as_num(case["i"] + which, case["box"]))
         if not ok:
             return
         got.append(m.df["subtomo_id"].to_numpy(dtype=float).tolist())
@@ -817,8 +947,11 @@ def _vecarg(v, argt):
     if argt == "tuple":
         return tuple(int(t) if integral else float(t) for t in v)
     if argt == "array_i" and integral:
-        return v.astype(np.int64)
-    return v.astype(np.float64)
+        k = int(v.sum()) % 4
+        return layout(v.astype([np.int64, np.int32, np.int16, np.int64][k]), [0, 4, 2, 3][k])
+    k = int(v.sum() * 8) % 4
+    dt = np.float32 if (k == 1 and np.all(v.astype(np.float32) == v)) else np.float64
+    return layout(v.astype(dt), [0, 4, 2, 3][k])
 
 
 def run_trim_history(ctx, case):
@@ -957,22 +1090,44 @@ def gen_dist(ctx, rng, cls, i):
     case = dict(kind="dist", df=df, P=P, r=r, r_small=r_small, split=split, inplace=bool(rng.integers(0, 2)),
                 out_file=bool(rng.random() < 0.4), kw=bool(rng.integers(0, 2)), colperm=rng.permutation(5),
                 int_ids=bool(rng.integers(0, 2)), exp_kept=int((~removed).sum()), n=n, near_tie=bool(margin < TIE),
-                big=blocks is not None)
+                big=blocks is not None, pts_cols=str(rng.choice(["bare", "shifts", "motl", "motl_order"], p=[0.3, 0.25, 0.25, 0.2])),
+                pts_int_xyz=bool(rng.random() < 0.3))
     case["summary"] = {"filter": "clean_by_distance_to_points", "n": n, "tomograms": k, "points": int(len(P)), "radius": r,
                        "radius_small": r_small, "points_per_tomo": {str(t): int((P[:, 0] == t).sum()) for t in tl},
                        "points_in_foreign_tomograms": int((~np.isin(P[:, 0], tl)).sum()), "inplace": case["inplace"],
                        "expected_removed": int(removed.sum()), "exact_tie_pairs": int(ties), "positions_head": head(arr), "points_head": P[:3].tolist(),
-                       "tomo_id_kind": df.attrs["ids"], "subtomo_id_lift": df.attrs["subtomo_lift"], "duplicate_rows_planted": n_dup, "output_file": case["out_file"]}
+                       "tomo_id_kind": df.attrs["ids"], "subtomo_id_lift": df.attrs["subtomo_lift"], "duplicate_rows_planted": n_dup, "output_file": case["out_file"],
+                       "points_table_columns": case["pts_cols"]}
     return case
 
 
 def points_frame(case, P, rng):
+    """The reference points are the documented columns x, y, z (+ the grouping column).  The table may carry any other
+    columns: a score, shift_x/y/z (another list's .df handed over as points) or all 20 particle fields; they do not move
+    the points."""
     d = {"tomo_id": P[:, 0].astype(np.int64) if case["int_ids"] else P[:, 0], "x": P[:, 1], "y": P[:, 2], "z": P[:, 3],
          "score": rng.random(len(P))}
-    names = [list(d)[j] for j in case["colperm"]]
+    kind = case["pts_cols"]
+    if kind == "bare":
+        names = [list(d)[j] for j in case["colperm"]]
+    else:
+        sh = nz_shift(rng, len(P), amp=8.0)
+        d.update({"shift_x": sh[:, 0], "shift_y": sh[:, 1], "shift_z": sh[:, 2]})
+        if kind == "motl":
+            for c in O.COLS:
+                if c not in d:
+                    d[c] = np.round(rng.uniform(0, 5, len(P)), 3)
+        names = [list(d)[j] for j in rng.permutation(len(d))]
+        if kind == "motl_order":
+            for c in O.COLS:
+                if c not in d:
+                    d[c] = np.zeros(len(P))
+            names = list(O.COLS)
     f = pd.DataFrame({c: d[c] for c in names})
-    if len(f):
-        f.index = rng.permutation(len(f)) * 2 + 5
+    if case["pts_int_xyz"] and len(P) and np.all(P[:, 1:] == np.round(P[:, 1:])):
+        for c in ("x", "y", "z"):
+            f[c] = f[c].astype(np.int32)
+    f.index = odd_labels(rng, len(f))[1] if len(f) else f.index
     return f
 
 
@@ -987,10 +1142,11 @@ def run_dist(ctx, case):
             return None
         pf = points_frame(case, P, rng)
         if kw:
-            ok, res = ctx.call("clean_by_distance_to_points", m.clean_by_distance_to_points, points=pf, radius_in_voxels=r,
-                               feature_id="tomo_id", inplace=inplace, output_file=out_file)
+            ok, res = ctx.call("clean_by_distance_to_points", m.clean_by_distance_to_points, points=pf, radius_in_voxels=as_num(case["i"], r),
+                               feature_id="tomo_id", inplace=as_flag(case["i"], inplace), output_file=out_file)
         else:
-            ok, res = ctx.call("clean_by_distance_to_points", m.clean_by_distance_to_points, pf, r, inplace=inplace, output_file=out_file)
+            ok, res = ctx.call("clean_by_distance_to_points", m.clean_by_distance_to_points, pf, as_num(case["i"] + 2, r),
+                               inplace=as_flag(case["i"] + 3, inplace), output_file=out_file)
         if not ok:
             return None
         out = m.df if inplace else res.df
@@ -1000,17 +1156,17 @@ def run_dist(ctx, case):
     if case["near_tie"]:                      # cannot happen on the 1/8 lattice; kept as a guard
         ctx.ood("dist_exact")
         return
-    of = os.path.join(ctx.scratch, "dist_%d.em" % case["i"]) if case["out_file"] else None
+    of = odd_path(ctx, case["i"], "dist_%d" % case["i"], ".em") if case["out_file"] else None
     R = removed_by(P, case["r"], case["inplace"], of, case["kw"])
     if R is not None and case["big"]:     # large point sets once more, other (inplace, output_file) combination
-        removed_by(P, case["r"], not case["inplace"], None if of else os.path.join(ctx.scratch, "dist_%d_b.em" % case["i"]), not case["kw"])
+        removed_by(P, case["r"], not case["inplace"], None if of else odd_path(ctx, case["i"] + 1, "dist_%d_b" % case["i"], ".em"), not case["kw"])
     if R is None or case["big"] or len(P) == 0:
         return
     if (case["i"] // len(CLASSES)) % 3 == 1:
         # history: one caller-owned points table; call, move the points in place, call again, move back, call again
         pf = points_frame(case, P, rng)
         for step, dx in enumerate((0.0, 2.0, -2.0)):
-            pf.loc[:, "x"] = pf["x"] + dx
+            pf["x"] = pf["x"].to_numpy() + dx              # same table object, labels may repeat
             ok, m = ctx.call("Motl(df)", cm.Motl, case["df"].copy())
             if not ok:
                 return
@@ -1128,9 +1284,14 @@ def mask_object(ctx, m, storage, slot):
     """Mask files live in a small pool of RE-USED paths (slot = position in the call's mask list): the same path is
     rewritten with other content by later calls of the same case and by later cases."""
     if storage in ("f8", "f4", "i1", "u1", "i8"):
-        return m.astype({"f8": np.float64, "f4": np.float32, "i1": np.int8, "u1": np.uint8, "i8": np.int64}[storage])
+        a = m.astype({"f8": np.float64, "f4": np.float32, "i1": np.int8, "u1": np.uint8, "i8": np.int64}[storage])
+        ctx.c09_n = getattr(ctx, "c09_n", 0) + 1
+        v = ctx.c09_n
+        if storage == "i8" and v % 3 == 0:
+            a = a.astype([np.int16, np.int32, np.bool_][(v // 3) % 3])
+        return layout(a, v)
     kind, dt = storage.split("_")
-    path = os.path.join(ctx.scratch, "maskpool_%d.%s" % (slot, kind))
+    path = odd_path(ctx, slot, "maskpool", "." + kind, relative=slot % 2 == 0)
     if kind == "mrc":
         files.write_mrc_raw(path, m, mode=2 if dt == "f4" else 0)
     else:
@@ -1152,7 +1313,7 @@ def run_mask(ctx, case):
     elif case["tl_kind"] == "list":
         tl = [float(t) for t in listed]
     else:
-        tl = os.path.join(ctx.scratch, "tomos_%d.txt" % case["i"])
+        tl = odd_path(ctx, case["i"], "tomos_%d" % case["i"], ".txt")
         with open(tl, "w") as f:
             f.write("".join("%d\n" % t for t in listed))
 
@@ -1162,13 +1323,13 @@ def run_mask(ctx, case):
             return None
         objs = [mask_object(ctx, mm, st, j) for j, (mm, st) in enumerate(zip(masks, storage))]
         arg = objs[0] if case["single"] else objs
-        ok, res = ctx.call("clean_by_tomo_mask", m.clean_by_tomo_mask, tl, arg, inplace=inplace, output_file=out_file)
+        ok, res = ctx.call("clean_by_tomo_mask", m.clean_by_tomo_mask, tl, arg, inplace=as_flag(case["i"] + len(tag), inplace), output_file=out_file)
         if not ok:
             return None
         out = m.df if inplace else res.df
         return all_ids - set(out["subtomo_id"].tolist())
 
-    of = os.path.join(ctx.scratch, "mask_out_%d.em" % case["i"]) if case["out_file"] else None
+    of = odd_path(ctx, case["i"], "mask_out_%d" % case["i"], ".em") if case["out_file"] else None
     R = removed_by(case["masks"], case["storage"], case["inplace"], "m", of)
     on_disk = any("_" in st for st in case["storage"])
     if R is None or case["big"]:
@@ -1201,13 +1362,104 @@ def run_mask(ctx, case):
                "in_both": sorted(R & Rc)[:8], "zero_mask_minus_union": sorted(R0 - (R | Rc))[:8], "union_minus_zero_mask": sorted((R | Rc) - R0)[:8]})
 
 
+# ---- flow: the four filters applied one after the other to ONE list object -----------------------------
+FLOW_ORDERS = [("oob", "trim", "dist", "mask"), ("trim", "dist", "mask", "oob"), ("trim", "mask", "oob", "dist"), ("oob", "trim", "mask", "dist")]
+
+
+def gen_flow(ctx, rng, cls, i):
+    k = int(rng.integers(1, 4))
+    n = n_particles(ctx, rng, lo=4)
+    df, tl = base_table(rng, n, k)
+    dims = rng.integers(40, 90, (k, 3)).astype(float)
+    tomo = df["tomo_id"].to_numpy()
+    own = np.array([dims[int(np.nonzero(tl == t)[0][0])] for t in tomo])
+    c = np.round(rng.uniform(-4, 1, (n, 3)) * 8) / 8
+    inside = rng.random((n, 3)) < 0.85
+    c = np.where(inside, np.round(rng.uniform(0, 1, (n, 3)) * own * 8) / 8, np.where(rng.random((n, 3)) < 0.5, c, own + np.abs(c)))
+    s = dy(rng, -0.875, 0.875, (n, 3))
+    s[s == 0] = 0.25
+    set_positions(df, c, s)
+    plant_duplicates(rng, df, keep_ids_unique=True)
+    mode = "center" if rng.random() < 0.5 else "whole"
+    box = None if mode == "center" else int(rng.choice([2, 4, 5]))
+    start = rng.integers(1, 7, 3).astype(float)
+    end = dims.min(axis=0) - rng.integers(0, 10, 3)
+    off = start - 1
+    r = float(dy(rng, 1.5, 6.0))
+    arr = O.table(df)
+    pos = O.positions(arr)
+    pts = []
+    for j in rng.permutation(n)[:max(1, n // 3)]:
+        v = rng.normal(size=3)
+        v /= np.linalg.norm(v)
+        pp = np.round((pos[j] - off + v * r * float(rng.choice([0.0, 0.5, 0.9, 1.2, 2.0]))) * 8) / 8
+        pts.append([arr[j, O.ITOMO], pp[0], pp[1], pp[2]])
+    shape = tuple(int(v) for v in np.maximum(4, end - start + 1 + rng.integers(-3, 4, 3)))
+    mask = (rng.random(shape) < 0.6).astype(np.int8)
+    lo, up, _, _ = O.oob_expected(arr, tl, dims, O.half_box(mode, box))
+    f32 = bool(np.all(arr[:, [O.ISUB, O.ITOMO]].astype(np.float32) == arr[:, [O.ISUB, O.ITOMO]]))
+    case = dict(kind="flow", df=df, ids=tl, dims=dims, mode=mode, box=box, start=start, end=end, P=np.array(pts, dtype=float).reshape(-1, 4),
+                r=r, mask=mask, order=FLOW_ORDERS[(i // len(CLASSES)) % len(FLOW_ORDERS)], loaded=bool(f32 and rng.random() < 0.5),
+                exp_kept=int((lo & up).sum()), n=n, int_ids=False, pts_cols=str(rng.choice(["bare", "shifts", "motl_order"])), pts_int_xyz=False,
+                colperm=rng.permutation(5))
+    case["summary"] = {"filter": "chain " + " > ".join(case["order"]), "n": n, "tomograms": k, "dims": dims.tolist(), "boundary_type": mode,
+                       "box_size": box, "trim": [start.tolist(), end.tolist()], "points": len(pts), "radius": r, "mask_shape": list(shape),
+                       "through_em_file_and_loader": case["loaded"], "positions_head": head(arr), "tomo_id_kind": df.attrs["ids"]}
+    return case
+
+
+def run_flow(ctx, case):
+    """Objects produced by one anchored function are fed into the next: the list a loader returned, the list object as
+    adapt_to_trimming / remove_out_of_bounds_particles left it (labels with gaps), the Motl returned by inplace=False calls.
+    Every call is judged by the call monitors against the state the object has when the call is made."""
+    cm = ctx.cm
+    rng = ctx.rng(case["i"], 1)
+    i = case["i"]
+    ok, m = ctx.call("Motl(df)", cm.Motl, case["df"].copy())
+    if not ok:
+        return
+    if case["loaded"]:
+        path = odd_path(ctx, i, "flow_%d" % i, ".em")
+        ok, _ = ctx.call("Motl.write_out", m.write_out, path)
+        if not ok:
+            return
+        ok, m = ctx.call("Motl.load", cm.Motl.load, path)
+        if not ok:
+            return
+    m.df.attrs["note"] = "carried along"
+    m.provenance = "flow %d" % i
+    tl_all = [float(t) for t in case["ids"]]
+    for step, op in enumerate(case["order"]):
+        if len(m.df) == 0:
+            return
+        if op == "oob":
+            d = np.column_stack([case["ids"], case["dims"]])
+            ok, _ = ctx.call("remove_out_of_bounds_particles", m.remove_out_of_bounds_particles, layout(d, i + step), case["mode"], as_num(i, case["box"]))
+        elif op == "trim":
+            ok, _ = ctx.call("adapt_to_trimming", m.adapt_to_trimming, [int(v) for v in case["start"]], case["end"].astype(np.int64))
+        elif op == "dist":
+            ret = (i + step) % 2 == 0
+            ok, res = ctx.call("clean_by_distance_to_points", m.clean_by_distance_to_points, points_frame(case, case["P"], rng), case["r"],
+                               inplace=not ret)
+            if ok and ret:
+                m = res
+        else:
+            ret = (i + step) % 2 == 1
+            ok, res = ctx.call("clean_by_tomo_mask", m.clean_by_tomo_mask, tl_all, layout(case["mask"].astype(np.float32), i), inplace=not ret)
+            if ok and ret:
+                m = res
+        if not ok:
+            return
+
+
 # ---- module interface -------------------------------------------------------------------------------
 def gen(ctx, i, cls):
     rng = ctx.rng(i)
     fam = cls.split("_")[0]
-    case = {"oob": gen_oob, "trim": gen_trim, "dist": gen_dist, "mask": gen_mask}[fam](ctx, rng, cls, i)
+    case = {"oob": gen_oob, "trim": gen_trim, "dist": gen_dist, "mask": gen_mask, "flow": gen_flow}[fam](ctx, rng, cls, i)
     case["i"] = i
     case["cls"] = cls
+    shape_table(ctx.rng(i, 7), case)
     return case
 
 
@@ -1216,7 +1468,7 @@ def nontrivial(case):
 
 
 def run_case(ctx, case):
-    {"oob": run_oob, "trim": run_trim, "dist": run_dist, "mask": run_mask}[case["kind"]](ctx, case)
+    {"oob": run_oob, "trim": run_trim, "dist": run_dist, "mask": run_mask, "flow": run_flow}[case["kind"]](ctx, case)
 
 
 # ---- exhaustive sub-spaces (shard 0) ---------------------------------------------------------------
